@@ -1,5 +1,6 @@
 import AriVerif.Errors
 import AriVerif.Props.C05
+import AriVerif.Lemmas.Wire
 /-!
 # C08 — adapter exceptions map to the protocol's error subtype, payload intact
 
@@ -149,4 +150,89 @@ def decodeErrorToks (toks : List String) : Option ErrInfo :=
   | _ => none
 end Spec
 
+end Ari
+
+namespace Ari
+open Spec in
+/-- **C08 (payload intact).** A conforming decoder recovers from the reply's tokens the subtype, exactly
+    `str(exception)`, and for a CreditsError its client code and its user message (None ≠ empty), for a
+    ConflictingSessionError also the conflicting session id — for every message, code and id. -/
+theorem c08_payload (m : String) (e : Exc) :
+    Spec.decodeErrorToks (errToks m e) =
+      some (match subtypeCode m e.mro with
+        | some 'C' => ⟨some 'C', .val (some e.msg), some e.code, some (.val e.userMsg), none⟩
+        | some 'X' => ⟨some 'X', .val (some e.msg), some e.code, some (.val e.userMsg), some (.val e.sessionId)⟩
+        | c => ⟨c, .val (some e.msg), none, none, none⟩) := by
+  unfold errToks
+  cases hc : subtypeCode m e.mro with
+  | none => simp [Spec.decodeErrorToks, c05_roundtrip]
+  | some c =>
+    by_cases h1 : c = 'C'
+    · subst h1
+      simp [Spec.decodeErrorToks, c05_roundtrip, pyInt?_pyStrInt]
+    · by_cases h2 : c = 'X'
+      · subst h2
+        simp [Spec.decodeErrorToks, c05_roundtrip, pyInt?_pyStrInt]
+      · have : ("E" ++ String.singleton c).toList = ['E', c] := by
+          simp [String.toList_append]
+        simp [Spec.decodeErrorToks, c05_roundtrip, h1, h2, this]
+
+theorem lookup_mem {β} (k : String) (l : List (String × β)) (b : β) (h : lookup k l = some b) :
+    b ∈ l.map (·.2) := by
+  induction l with
+  | nil => simp [lookup] at h
+  | cons x xs ih =>
+    obtain ⟨a, b'⟩ := x
+    simp only [lookup] at h
+    split at h
+    · cases h; simp
+    · simp [ih h]
+
+theorem subtypeCode_ne_bar (m : String) (mro : List String) (c : Char)
+    (h : subtypeCode m mro = some c) : c ≠ '|' := by
+  unfold subtypeCode at h
+  split at h
+  · have hm := lookup_mem _ _ _ h
+    have : ∀ ch ∈ Gen.excMap.map (·.2), ch ≠ '|' := by decide
+    exact this c hm
+  · cases h
+
+/-- together with `c08_line`: the tokens are recovered from the line itself by splitting at the
+    separator (no token of an error reply contains it), so `c08_payload` applies to the line. -/
+theorem c08_line_splits (m : String) (e : Exc) (hm : ∀ c ∈ m.toList, c ≠ '|') :
+    splitBar (writeError m e) = errToks m e := by
+  rw [c08_line]
+  have henc : ∀ v, ∀ c ∈ (encodeString v).toList, c ≠ '|' := fun v c hc => ((c05_no_sep v).2 c hc).1
+  have hint : ∀ i : Int, ∀ c ∈ (pyStrInt i).toList, c ≠ '|' := fun i c hc => ((pyStrInt_clean i).2 c hc).1
+  apply splitBar_joinBar
+  · unfold errToks; split <;> simp
+  · intro t ht c hc
+    unfold errToks at ht
+    split at ht
+    · simp only [List.mem_cons, List.not_mem_nil, or_false] at ht
+      rcases ht with rfl | rfl | rfl
+      · exact hm c hc
+      · simp at hc; subst hc; decide
+      · exact henc _ c hc
+    · rename_i code hcode
+      have hcb := subtypeCode_ne_bar m e.mro code hcode
+      simp only [List.cons_append, List.nil_append, List.mem_cons, List.mem_append] at ht
+      rcases ht with rfl | rfl | rfl | ht
+      · exact hm c hc
+      · simp [String.toList_append] at hc
+        rcases hc with rfl | rfl
+        · decide
+        · exact hcb
+      · exact henc _ c hc
+      · rcases ht with ht | ht
+        · split at ht
+          · simp only [List.mem_cons, List.not_mem_nil, or_false] at ht
+            rcases ht with rfl | rfl
+            · exact hint _ c hc
+            · exact henc _ c hc
+          · simp at ht
+        · split at ht
+          · simp only [List.mem_cons, List.not_mem_nil, or_false] at ht
+            subst ht; exact henc _ c hc
+          · simp at ht
 end Ari
